@@ -317,6 +317,7 @@ fn recipe_text(rng: &mut Rng) -> String {
                 6 => format!("@@{}{{{q}}}", rng.pick(&PATHS)),
                 7 => format!("@{}{{{q}}}", rng.pick(&PATHS)),
                 8 => format!("@{name}|{}{{{q}}}", rng.pick(&ALIASES)),
+                12 => format!("@{name}|{}{{{q}}}", rng.pick(&NAMES)),   // alias = another ingredient's name: two definitions, one display name
                 9 if si > 0 => format!("@&(~1){name}{{{q}}}"),
                 10 => format!("@-?{name}{{{q}}}"),
                 11 if name.split(' ').count() == 1 => format!("@{name}"),
@@ -439,6 +440,22 @@ fn recipes_case(ctx: &mut Ctx, conv: &Converter, recipes: &[ScaledRecipe], texts
     for (name, g) in list.iter() {
         if let Some(want) = expected.get(name) {
             if let Some(d) = want.diff(&Totals::of(conv, g.iter())) { ctx.oracle_fail(input.clone(), format!("list entry {name:?}: {d}"), "c10:list-conserves".into()); }
+        }
+    }
+    // the one-recipe constructor must build the same list (same oracle, evaluated on its own result)
+    if recipes.len() == 1 {
+        match guarded(|| IngredientList::from_recipe(&recipes[0], conv)) {
+            Err(p) => ctx.oracle_fail(input.clone(), format!("from_recipe: panic {p}"), panic_signature(&p)),
+            Ok(l2) => {
+                ctx.count("list:from_recipe");
+                let got2: Vec<&String> = l2.iter().map(|(n, _)| n).collect();
+                if got2 != want_names { ctx.oracle_fail(input.clone(), format!("from_recipe lists {got2:?}; the listed definitions are {want_names:?}"), "c10:listed-names".into()); }
+                for (name, g) in l2.iter() {
+                    if let Some(want) = expected.get(name) {
+                        if let Some(d) = want.diff(&Totals::of(conv, g.iter())) { ctx.oracle_fail(input.clone(), format!("from_recipe: list entry {name:?}: {d}"), "c10:list-conserves".into()); }
+                    }
+                }
+            }
         }
     }
     // ---- split by aisle
